@@ -175,6 +175,12 @@ class PythonASTOptimizer(ast.NodeTransformer):
             return None
         return node
 
+    def visit_AsyncFunctionDef(self, node: ast.AsyncFunctionDef) -> ast.AST | None:
+        """Track `global` declarations of async function bodies separately from those
+        of the enclosing function."""
+        with self._new_global_context():
+            return self.generic_visit(node)
+
     def visit_FunctionDef(self, node: ast.FunctionDef) -> ast.AST | None:
         """Eliminate dead code from function bodies."""
         with self._new_global_context():
